@@ -81,12 +81,12 @@ def worker(task):
             out_ = []
             for ob in sl:
                 r_ = par.fork_call(lambda ob=ob: discharge_one((I, ob, known.get(ob.name), timeout_ms, seed, both, q)),
-                                   deadline_s=12 * timeout_ms / 1000 + 10)
+                                   deadline_s=25 * timeout_ms / 1000 + 10)
                 if r_[0] == "ok":
                     out_.append(r_[1])
                 else:
                     out_.append({"name": ob.name, "kind": ob.kind, "trace": ob.trace[-8:], "clause": ob.clause, "qual": q,
-                                 "size": len(ob.pc), "verdict": "unknown", "backend": "z3", "time_s": 12 * timeout_ms / 1000 + 10,
+                                 "size": len(ob.pc), "verdict": "unknown", "backend": "z3", "time_s": 25 * timeout_ms / 1000 + 10,
                                  "reason": "solver exceeded the hard wall-clock limit" if r_[0] == "killed" else r_[1][-500:]})
             return out_
         for res in par.fork_map(do_slice, slices, n):
